@@ -218,7 +218,7 @@ def run_case(res, root, p, s, case, cache):
         fsmod.ThreadPoolExecutor = world.executor_class("thread")
         fsmod.ProcessPoolExecutor = world.executor_class("process")
         fsmod.gc = P.NoGC
-        restore = world.install_waiters()
+        restore = world.install_waiters((fsmod,))
         try:
             A.info_cache.clear()
             B.info_cache.clear()
